@@ -43,7 +43,7 @@ func makeEditedObjSized(r *Run, what string, big, huge bool) *simObj {
 		r.stat("dedup_stress_docs", 1)
 	} else if huge {
 		cfg.ND = false
-		doc = GenBulkDoc(c, 150000+c.Intn("hugesz", 350000), []int{FamDenseArrays, FamZeros, FamNumbers, FamStrings, FamMixed, FamWide}).B
+		doc = GenBulkDoc(c, 150000+c.Intn("hugesz", 350000), []int{FamDenseArrays, FamZeros, FamNumbers, FamStrings, FamMixed, FamWide, FamBigMembers, FamBigMembers}).B
 		r.stat("huge_tapes", 1)
 	} else {
 		doc = genHistDoc(r, cfg.ND, big)
@@ -92,9 +92,9 @@ func runHistSerialBody(r *Run) {
 	nobj := 1 + c.Intn("nobj", 3)
 	for i := 0; i < nobj && !r.failed(); i++ {
 		big := c.Intn("serbig", 6) == 5
-		hugeOdds := 200
+		hugeOdds := 60
 		if r.thorough() {
-			hugeOdds = 30
+			hugeOdds = 25
 		}
 		huge := c.Intn("serhuge", hugeOdds) == 0
 		if o := makeEditedObjSized(r, fmt.Sprintf("obj%d", i), big, huge); o != nil {
@@ -452,6 +452,7 @@ func RunHistReuse(r *Run) {
 	failedDes := 0
 	body := func(newCall func()) {
 		var pool []*simObj // reusable objects (readable or not)
+		handles := map[*simObj]*simdjson.ParsedJson{}
 		defer func() {
 			// settle: let anything a (failed) call may have left running finish (fake clock: the sleep returns once
 			// every other goroutine of the bubble is idle), then every live object must still expose its document
@@ -487,14 +488,25 @@ func RunHistReuse(r *Run) {
 				var pj *simdjson.ParsedJson
 				var perr error
 				var ruPJ *simdjson.ParsedJson
+				viaCopy := false
 				if ru != nil {
 					ruPJ = ru.pj
+					if h := handles[ru]; h != nil {
+						// the caller keeps its own ParsedJson value (a by-value copy made earlier) and reuses that
+						ruPJ = h
+						viaCopy = true
+					} else if ru.pj != nil && c.Intn("byvalue", 3) == 0 {
+						cp := *ru.pj
+						handles[ru] = &cp
+						ruPJ = &cp
+						viaCopy = true
+					}
 					ru.invalid = true // whatever happens, the old content is gone
 					reused++
 				}
 				err := safely(func() error { pj, perr = doParse(buf.b, ruPJ, cfg); return nil })
 				newCall()
-				trace = append(trace, fmt.Sprintf("parse %s %s reuse=%v -> ok=%v", cfg, desc, ru != nil, perr == nil))
+				trace = append(trace, fmt.Sprintf("parse %s %s reuse=%v(by-value handle %v) -> ok=%v", cfg, desc, ru != nil, viaCopy, perr == nil))
 				r.Res.Evals++
 				if err != nil {
 					walkerFail(r, "panic", what, err)
@@ -513,6 +525,7 @@ func RunHistReuse(r *Run) {
 				no := &simObj{pj: pj, model: ref.Roots, nd: cfg.ND, copy: cfg.Copy, buf: buf, origin: what}
 				if ru != nil {
 					// the reused object is consumed by a successful parse
+					delete(handles, ru)
 					for i, p := range pool {
 						if p == ru {
 							pool = append(pool[:i], pool[i+1:]...)
@@ -734,6 +747,15 @@ func RunHistAlias(r *Run) {
 	cfg := drawCfg(c, true)
 	cfg.Copy = c.Intn("aliascopy", 3) != 0
 	doc := genHistDoc(r, cfg.ND, c.Intn("bigdoc", 8) == 7)
+	if c.Intn("hugestring", 15) == 0 {
+		// one very long string (beyond any internal block size) between small values
+		cfg.ND = false
+		doc = GenDoc(c, DocSpec{Family: FamHugeString, Target: 60000 + c.Intn("hugestrsz", 200000), WS: 0}).B
+		if c.Intn("hugestrplain", 2) == 0 {
+			// escape-free variant
+			doc = append(append([]byte(`["x","`), bytes.Repeat([]byte("abcdefgh"), 8200+c.Intn("hugestrrep", 20000))...), `",1]`...)
+		}
+	}
 	r.Res.Inputs["doc"] = b64(doc)
 	r.Res.Sample["cfg"] = cfg.String()
 	var trace []string
